@@ -454,3 +454,10 @@ mod private {
 }
 use private::IsSliceRead;
 impl IsSliceRead for de::read::SliceRead<'_> {}
+
+/// Verification harness mount point (only compiled under `cargo kani`; source lives outside this repository)
+#[cfg(kani)]
+#[allow(unused, missing_docs)]
+pub(crate) mod verif {
+	include!(concat!(env!("SAF_VERIF"), "/ocf_reader.rs"));
+}
